@@ -171,9 +171,12 @@ def configurations(tier):
     add("using-ids", "using-ids", (INNER, LEFT), [e(I12), e(I1)], ["C_id", "Id_1"])
     add("using-measure", "using-measure", (INNER, LEFT), [(I1, True), e(IK)], ["C_id", "K"])
     add("equal1", "equal-ids", (INNER, LEFT, FULL), [e(I1), e(I1), e(I1)])
+    add("nested-rev3", "nested", (INNER,), [e(I1), e(I12), e(I12)])     # two later operands share identifiers the first lacks
     add("disjoint", "cross-disjoint", (CROSS,), [e(I1), e(I2)])
     add("same", "cross-same", (CROSS,), [e(I1), e(I1)])
     if tier == "thorough":
+        add("nested-ref2", "nested", (INNER, LEFT), [e(I12), e(I12), e(I1)])
+        add("nested-last2", "nested", (INNER,), [e(I1), e(I1), e(I12)])
         add("equal2", "equal-ids", (INNER, LEFT, FULL), [e(I12), e(I12)])
         add("equal2", "equal-ids", (INNER, LEFT, FULL), [e(I12), e(I12), e(I12)])
         add("nested", "nested", (INNER, LEFT), [e(I12), e(I1), e(I1)])
